@@ -42,7 +42,7 @@ PROPS = {
         theorems=["get_set", "set_isolated", "bad_param", "bad_param_small", "param_high_bit_ignored", "set_is_direct", "stream64_eq_iff",
                   "stream32_eq_iff", "stream64_eq_refill"],
         gen=g("C15"),
-        cfgs_quick=["std-debug", "std-release"],
+        cfgs_quick=["std-debug", "std-release", "nosimd-debug"],
         cfgs_thorough=ALL4,
     ),
     "C19": dict(
@@ -98,13 +98,13 @@ PROPS = {
     "C09": dict(
         theorems=["threefish_conforms", "unroll_eq_loop", "P_tables", "source_kernels_match", "source_code_match"],
         gen=g("C09"),
-        cfgs_quick=["std-debug", "std-release", "nounroll-release"],
+        cfgs_quick=["std-debug", "std-release", "nounroll-release", "nounroll-debug"],
         cfgs_thorough=["std-debug", "std-release", "nounroll-release", "nounroll-debug"],
     ),
     "C10": dict(
         theorems=["dec_enc", "enc_dec", "mix_inverse"],
         gen=g("C10"),
-        cfgs_quick=["std-debug", "std-release", "nounroll-release"],
+        cfgs_quick=["std-debug", "std-release", "nounroll-release", "nounroll-debug"],
         cfgs_thorough=["std-debug", "std-release", "nounroll-release", "nounroll-debug"],
     ),
     "C04": dict(
